@@ -306,6 +306,16 @@ pub fn run(ctx: &Ctx) {
         ctx.require_class("aux_classes", cl);
     }
 
+    // root trees tall enough that cached levels exceed 64 KiB (offsets beyond 16 bits)
+    let mut tall: Vec<AuxCase> = Vec::new();
+    for (h, w) in [(HashId::Sha256_128, 2u32), (HashId::Shake256_128, 1u32)] {
+        let n = h.n();
+        let budget = (4 + n + (n << 15) + (n << 13) + (n << 11) + 1000) as u32;
+        tall.push(AuxCase { hash: h, levels: vec![(w, 15)], seed: 2, spec: AuxSpec::Zero(budget), op: AuxOp::Keygen });
+        tall.push(AuxCase { hash: h, levels: vec![(w, 15)], seed: 2, spec: AuxSpec::Valid(budget), op: AuxOp::Sign(20_000 + w as u64) });
+    }
+    ctx.enumerate("tall_root_large_levels", tall.len() as u64, false, |i| tall[i as usize].clone(), check_aux);
+
     // exhaustive sub-domains
     let hashes: Vec<HashId> = if ctx.quick() { vec![HashId::Sha256_128, HashId::Shake256_256] } else { ALL_HASHES.to_vec() };
     let mut items: Vec<AuxCase> = Vec::new();
